@@ -37,6 +37,12 @@ type c18Scenario struct {
 	CtxDialer   bool   `json:"ctx_dialer"`
 	Cycles      int    `json:"cycles"`
 	NewNick     string `json:"welcome_nick"` // nick given by the first 001 ("" = no 001)
+	// ForcedNick: before each reconnect the server changes the client's nick, and nothing asks the client who
+	// it is (no Me() call) until the next registration has been sent
+	ForcedNick  bool   `json:"forced_nick"`
+	// Collide: on the first connection the server refuses the registration nick once (433); the client falls
+	// back to the generated nick, which is then its current one
+	Collide bool `json:"collide"`
 	LateWhat    string `json:"late_what"`    // all: Server, SSL and Pass are set late; ssl: only SSL is flipped late
 	LateConfig  bool   `json:"late_config"`  // Server / SSL / Pass are set through Config() after Client(), before Connect()
 	Backlog     int    `json:"backlog"`      // lines queued behind a server that is not reading when the PINGs arrive
@@ -60,6 +66,8 @@ func genC18(t *rapid.T) *c18Scenario {
 		Cycles:     rapid.SampledFrom([]int{1, 1, 2, 3}).Draw(t, "cycles"),
 		NewNick:    rapid.SampledFrom([]string{"", "me", "other9", "Nick_1"}).Draw(t, "welcome_nick"),
 	}
+	sc.ForcedNick = rapid.IntRange(0, 2).Draw(t, "forced_nick") == 0
+	sc.Collide = rapid.IntRange(0, 3).Draw(t, "collide") == 0
 	sc.LateConfig = rapid.Bool().Draw(t, "late_config")
 	if sc.LateConfig {
 		sc.LateWhat = rapid.SampledFrom([]string{"all", "ssl"}).Draw(t, "late_what")
@@ -219,7 +227,17 @@ func runC18(sc *c18Scenario) *Violation {
 				return violationf("C18", "cycle %d: no answer after CAP LS reply", cycle)
 			}
 		}
-		if cycle == 0 && sc.NewNick != "" {
+		if cycle == 0 && sc.Collide {
+			conn.SendLine(":irc.server 433 * " + curNick + " :Nickname is already in use.")
+			if !tc.syncOut(stallTimeout()) {
+				return violationf("C18", "cycle %d: no answer after 433", cycle)
+			}
+			curNick = client.DefaultNewNick(curNick)
+			if !strings.Contains(conn.Written(), "NICK "+curNick+"\r\n") {
+				return nil // C17's subject
+			}
+		}
+		if cycle == 0 && sc.NewNick != "" && !sc.Collide {
 			conn.SendLine(":irc.server 001 " + sc.NewNick + " :Welcome to IRC " + sc.NewNick + "!" + sc.Ident + "@host")
 			curNick = sc.NewNick
 		}
@@ -321,6 +339,14 @@ func runC18(sc *c18Scenario) *Violation {
 				return violationf("C18", "PingFreq=%dms: client sent a PING of its own after %v", sc.PingFreqMS, el)
 			}
 		}
+		if cycle+1 < sc.Cycles && sc.ForcedNick {
+			forced := fmt.Sprintf("Forced%d", cycle)
+			conn.SendLine(":" + curNick + "!" + sc.Ident + "@host NICK :" + forced)
+			if !tc.syncOut(stallTimeout()) {
+				return violationf("C18", "cycle %d: no answer after a server-forced NICK", cycle)
+			}
+			curNick = forced
+		}
 		if cycle+1 < sc.Cycles {
 			go tc.C.Close()
 			select {
@@ -332,7 +358,7 @@ func runC18(sc *c18Scenario) *Violation {
 			if !waitCond(stallTimeout(), func() bool { n, _ := goircGoroutines(); return n == 0 }) {
 				return violationf("C18", "cycle %d: goroutines of the closed connection never exited", cycle)
 			}
-			if tc.C.Me() == nil || tc.C.Me().Nick != curNick {
+			if !sc.ForcedNick && (tc.C.Me() == nil || tc.C.Me().Nick != curNick) {
 				// C17's subject; do not continue with an unknown nick
 				return nil
 			}
@@ -369,6 +395,12 @@ func (sc *c18Scenario) classes() (cls []string, nontrivial bool) {
 	if sc.LateConfig {
 		cls = append(cls, "late_config="+sc.LateWhat)
 	}
+	if sc.Collide && sc.Cycles > 1 {
+		cls = append(cls, "nick_collision_before_reconnect")
+	}
+	if sc.ForcedNick && sc.Cycles > 1 {
+		cls = append(cls, "nick_forced_before_reconnect")
+	}
 	if sc.Backlog > 0 {
 		cls = append(cls, "pings_behind_backlog")
 	}
@@ -401,4 +433,18 @@ func TestC18_Replay(t *testing.T) {
 	if v := runC18(&sc); v != nil {
 		t.Fatalf("REPRODUCED %s", v.Msg)
 	}
+}
+
+// TestC18_Regress replays, without the generator library, the history behind a defect that was repaired
+// in goirc (known_findings.json).
+func TestC18_Regress(t *testing.T) {
+	col := evid.New("C18", "regression leg: the minimal history of a repaired defect, replayed as a plain scenario")
+	defer finish(t, col)
+	// tracked client, nick forced by the server, nothing calls Me(), reconnect: NICK carried the old nick
+	d16 := &c18Scenario{Nick: "me", Ident: "ident", Name: "Real Name", Server: "irc.example.net", PingFreqMS: -1000, Tracking: true, Cycles: 2, ForcedNick: true}
+	if v := runC18(d16); v != nil {
+		writeReplay("TestC18", v, d16)
+		t.Fatalf("VIOLATION C18: %s", v.Msg)
+	}
+	col.Case("d16", true, "regression")
 }
